@@ -9,7 +9,8 @@ RULE = (
     "agrees with its raw ranges, the size delta equals the sum of (new-old), and every old token "
     "outside the replaced ranges is found at map(i,+1) in the new document (full token equality for "
     "replace steps, kind+type/unit for markup-only steps). Workloads: primitive steps and every step "
-    "emitted by the high-level transform operations. distinct = (schema, step class, emitting "
+    "emitted by the high-level transform operations; for every history the composed Transform.mapping is "
+    "checked to send each untouched token of `before` to its place in the final document. distinct = (schema, step class, emitting "
     "operation, number of ranges, grows, shrinks); trivial = empty map of a replace step."
 )
 ASSUMPTIONS = ["input documents valid by the reference; only successful applications are judged"]
@@ -21,7 +22,7 @@ def cases(tier):
 
 
 def floors(tier):
-    f = {"distinct_nontrivial": 60}
+    f = {"distinct_nontrivial": 60, "history_mappings": 1000, "history_tokens_tracked": 5000}
     for k in ("ReplaceStep", "ReplaceAroundStep", "AddMarkStep", "RemoveMarkStep", "AddNodeMarkStep", "RemoveNodeMarkStep", "AttrStep", "DocAttrStep"):
         f["map_events:" + k] = 200
     return f
